@@ -17,6 +17,7 @@ From Coq Require Import List Arith Bool.
 Import ListNotations.
 From Onet Require Import Net.RouterClose Net.RouterCloseProofs Net.CloseSeq Net.CloseSeqProofs.
 From Onet Require Import Corr.C10 Net.C10CheckProofs Net.CloseConc Net.CloseConcProofs.
+From Onet Require Import Net.SendClose Net.SendCloseProofs Net.StartClose Net.StartCloseProofs.
 
 (* J1-J4 and their companions hold in every reachable state, for both variants *)
 Theorem c10_invariants : forall fx acts s, run fx init acts = Some s -> Inv fx s.
@@ -351,3 +352,98 @@ Theorem c10_concurrent_close_sched_reachable : forall cta del_db fx fuel s,
   exists acts, krun cta del_db fx s acts = Some (sched cta del_db fx fuel s).
 Proof. exact sched_reachable. Qed.
 Print Assumptions c10_concurrent_close_sched_reachable.
+
+(* ---- a Send blocked in the socket write while Stop closes the connection ------ *)
+(* [wrun ctm winit acts]: one registered TCP connection with its handleConn goroutine, any
+   number of Send calls (Send = sendMutex.Lock; write, which blocks while the peer does not
+   read and fails once the socket is closed; Unlock), one Stop, a peer that stalls and reads
+   (Net/SendClose.v).  ctm = true is the variant in which TCPConn.Close takes sendMutex. *)
+
+(* the code as it is: once Stop has been called, a state without enabled internal action has
+   Stop returned and every Send returned; a blocked Send does not delay Stop *)
+Theorem c10_send_close_no_hang : forall acts s,
+  wrun false winit acts = Some s -> stopper s <> SIdle ->
+  (forall a, internal a = true -> wstep false s a = None) ->
+  stopper s = SRet /\ forall i p, nth_error (writers s) i = Some p -> wdone p = true.
+Proof. exact send_close_no_hang. Qed.
+Print Assumptions c10_send_close_no_hang.
+
+(* closing the socket makes the blocked write fail at once *)
+Theorem c10_send_close_blocked_writer_released : forall acts s i,
+  wrun false winit acts = Some s -> stopper s = SWaiting \/ stopper s = SRet ->
+  nth_error (writers s) i = Some WWrite -> exists s', wstep false s (WErr i) = Some s'.
+Proof. exact blocked_writer_released. Qed.
+Print Assumptions c10_send_close_blocked_writer_released.
+
+(* every internal step decreases a measure, in both variants *)
+Theorem c10_send_close_measure : forall ctm s a s',
+  internal a = true -> wstep ctm s a = Some s' -> wmeas s' < wmeas s.
+Proof. exact send_close_measure. Qed.
+Print Assumptions c10_send_close_measure.
+
+(* the variant hangs: Stop holds the router lock and waits for sendMutex behind a Send that
+   is blocked in the write; no internal action is enabled *)
+Theorem c10_close_takes_sendmutex_refuted :
+  exists s, wrun true winit ctm_witness = Some s /\
+            stopper s = SLocked /\ rlock s = true /\ writers s = [WWrite] /\
+            forall a, internal a = true -> wstep true s a = None.
+Proof. exact close_takes_sendmutex_refuted. Qed.
+Print Assumptions c10_close_takes_sendmutex_refuted.
+
+Example c10_send_close_example :
+  exists s, wrun false winit (blocked_schedule 2) = Some s /\
+            stopper s = SRet /\ writers s = [WDone Ok; WDone Ok; WDone Err] /\ wgw s = 0.
+Proof. exact blocked_schedule_ok. Qed.
+Print Assumptions c10_send_close_example.
+
+(* ---- protocol starts racing with Overlay.Close ------------------------------ *)
+(* [orun bo oinit acts]: any number of protocol starts (register in o.instances + dispatch
+   goroutine; constructor without the lock; bind in o.protocolInstances) interleaved with
+   Overlay.Close (Net/StartClose.v).  bo = true is the variant in which Close ranges over
+   the bound instances only. *)
+
+(* the code as it is: when Close has returned nothing is registered or bound and no dispatch
+   goroutine is alive, wherever the racing starts were *)
+Theorem c10_start_close_clean : forall acts s,
+  orun false oinit acts = Some s -> ocloser s = OClosed ->
+  regs s = 0 /\ bounds s = 0 /\ readers s = 0 /\
+  forall i p, nth_error (starts s) i = Some p -> p <> PCtor /\ p <> PBound.
+Proof. exact start_close_clean. Qed.
+Print Assumptions c10_start_close_clean.
+
+(* ... and every start still under way then fails with an error, leaving nothing *)
+Theorem c10_start_after_close_fails : forall acts s i p,
+  orun false oinit acts = Some s -> ocloser s = OClosed -> nth_error (starts s) i = Some p ->
+  match p with
+  | PNew => exists s', ostep false s (PReg i) = Some s' /\ nth_error (starts s') i = Some PGone /\ regs s' = 0 /\ readers s' = 0
+  | PGone => exists s', ostep false s (PBind i) = Some s' /\ nth_error (starts s') i = Some PErr /\ regs s' = 0 /\ readers s' = 0
+  | PCtor | PBound => False
+  | PErr => True
+  end.
+Proof. exact start_after_close_fails. Qed.
+Print Assumptions c10_start_after_close_fails.
+
+(* Close's loop is never blocked by a start and each of its steps removes an entry *)
+Theorem c10_close_loop_progress : forall acts s,
+  orun false oinit acts = Some s -> ocloser s = OClosing ->
+  exists a s', ostep false s a = Some s' /\
+               match a with ODelBound _ | ODelCtor _ | OFinish => True | _ => False end /\
+               (ocloser s' = OClosed \/
+                count_pp is_ctor (starts s') + count_pp is_bound (starts s') <
+                count_pp is_ctor (starts s) + count_pp is_bound (starts s)).
+Proof. exact close_loop_progress. Qed.
+Print Assumptions c10_close_loop_progress.
+
+(* the variant skips an instance whose constructor is running: its start then succeeds on
+   the closed overlay, its table entry and dispatch goroutine outlive the close *)
+Theorem c10_close_ranges_bound_refuted :
+  exists s, orun true oinit (ctor_held_schedule false) = Some s /\
+            ocloser s = OClosed /\ starts s = [PBound] /\ regs s = 1 /\ bounds s = 1 /\ readers s = 1.
+Proof. exact close_ranges_bound_refuted. Qed.
+Print Assumptions c10_close_ranges_bound_refuted.
+
+Example c10_start_close_example :
+  exists s, orun false oinit (ctor_held_schedule true) = Some s /\
+            ocloser s = OClosed /\ starts s = [PErr] /\ regs s = 0 /\ readers s = 0.
+Proof. exact ctor_held_code. Qed.
+Print Assumptions c10_start_close_example.
